@@ -13,9 +13,9 @@ package main
 // After the last step every park is released, the gate opened and unfinished goroutines are awaited
 // (T=<result> / T!stuck), then the component's counters are printed (late=, np=).
 //
-// Stress case line:     stress <comp> users=N ops=K cap=C seed=S jitter=J
-//   N goroutines hammer the object while one goroutine closes it at a random moment; afterwards every API is
-//   called once more and must report the close.  Observation when the property holds (schedule independent):
+// Stress case line:     stress <comp> users=N ops=K cap=C seed=S jitter=J rounds=R
+//   R trials; in each N goroutines hammer a fresh object while one goroutine closes it at a random moment;
+//   afterwards every API is called once more and must report the close.  Observation when the property holds (schedule independent):
 //   "ok panics=0 late=0 np=0 stuck=0 after=ok".
 
 import (
@@ -35,6 +35,8 @@ import (
 const (
 	c15Long  = 4 * time.Second
 	c15Short = 250 * time.Millisecond
+	// trials per stress line (each: fresh object, one Close at a random moment; ~10 ms)
+	c15Rounds = 30
 )
 
 type c15Thread struct {
@@ -100,8 +102,13 @@ func (ctl *Ctl) c15Adopt(name string) int64 {
 }
 
 func c15GoroutineAlive(gid int64) bool {
+	// the dump must be complete: a truncated one would make a live goroutine look finished
 	buf := make([]byte, 1<<20)
 	n := runtime.Stack(buf, true)
+	for n == len(buf) && len(buf) < 1<<28 {
+		buf = make([]byte, 2*len(buf))
+		n = runtime.Stack(buf, true)
+	}
 	return strings.Contains(string(buf[:n]), "goroutine "+strconv.FormatInt(gid, 10)+" [")
 }
 
@@ -693,6 +700,8 @@ func (pl *c15Pool) Cleanup() {
 
 // ------------------------------------------------------------------------------------------------ stress
 
+// c15Stress runs `rounds` independent trials (fresh object, derived seed, one Close each) and adds up the monitors:
+// one trial places the Close at ONE random moment, so the chance of landing in a few-instruction window is per trial.
 func c15Stress(line string) string {
 	fields := strings.Fields(line)
 	if len(fields) < 2 {
@@ -700,7 +709,40 @@ func c15Stress(line string) string {
 	}
 	comp := fields[1]
 	par := c15Params(fields[2:])
-	users, ops, seed := par["users"], par["ops"], int64(par["seed"])
+	rounds := par["rounds"]
+	if rounds <= 0 {
+		rounds = 1
+	}
+	var panics, late, np, afterBad int64
+	stuck := 0
+	for r := 0; r < rounds; r++ {
+		c, ok := c15StressOnce(comp, par, int64(par["seed"])+int64(r)*7919)
+		if !ok {
+			return "bad-component"
+		}
+		panics += c[0]
+		late += c[1]
+		np += c[2]
+		stuck += int(c[3])
+		afterBad += c[4]
+		if c[3] > 0 {
+			break // every further round would wait for its timeouts again
+		}
+	}
+	after := "ok"
+	if afterBad > 0 {
+		after = "bad" + strconv.FormatInt(afterBad, 10)
+	}
+	status := "ok"
+	if panics > 0 || late > 0 || np > 0 || stuck > 0 || after != "ok" {
+		status = "viol"
+	}
+	return fmt.Sprintf("%s panics=%d late=%d np=%d stuck=%d after=%s", status, panics, late, np, stuck, after)
+}
+
+// c15StressOnce: one trial; returns {panics, late, np, stuck, afterBad}.
+func c15StressOnce(comp string, par map[string]int, seed int64) ([5]int64, bool) {
+	users, ops := par["users"], par["ops"]
 	if users <= 0 {
 		users = 1
 	}
@@ -922,7 +964,7 @@ func c15Stress(line string) string {
 		}
 		cleanup = func() {}
 	default:
-		return "bad-component"
+		return [5]int64{}, false
 	}
 	var finished atomic.Int64
 	for u := 0; u < users; u++ {
@@ -961,15 +1003,7 @@ func c15Stress(line string) string {
 		guard(afterCheck)
 	}
 	cleanup()
-	after := "ok"
-	if afterBad.Load() > 0 {
-		after = "bad" + strconv.FormatInt(afterBad.Load(), 10)
-	}
-	status := "ok"
-	if panics.Load() > 0 || late.Load() > 0 || np.Load() > 0 || stuck > 0 || after != "ok" {
-		status = "viol"
-	}
-	return fmt.Sprintf("%s panics=%d late=%d np=%d stuck=%d after=%s", status, panics.Load(), late.Load(), np.Load(), stuck, after)
+	return [5]int64{panics.Load(), late.Load(), np.Load(), int64(stuck), afterBad.Load()}, true
 }
 
 // ------------------------------------------------------------------------------------------------ generator
@@ -987,22 +1021,25 @@ func c15Gen(tier string, rng *rand.Rand, emit func(string)) map[string]interface
 	}
 	ns := 0
 	for k := 0; k < rounds; k++ {
-		for _, comp := range []string{"handler", "actor", "bcq", "pool"} {
+		for _, comp := range []string{"handler", "actor", "bcq", "pool", "cor"} {
 			users := 1 + rng.Intn(8)
 			ops := 20 + rng.Intn(60)
 			seed := rng.Intn(1 << 30)
 			jit := rng.Intn(3)
 			switch comp {
 			case "handler", "actor":
-				e(fmt.Sprintf("stress %s users=%d ops=%d cap=%d seed=%d jitter=%d", comp, users, ops, []int{0, 1, 8}[rng.Intn(3)], seed, jit))
+				e(fmt.Sprintf("stress %s users=%d ops=%d cap=%d seed=%d jitter=%d rounds=%d", comp, users, ops, []int{0, 1, 8}[rng.Intn(3)], seed, jit, c15Rounds))
 			case "bcq":
-				e(fmt.Sprintf("stress bcq users=%d ops=%d c=%d b=%d seed=%d jitter=%d", users, ops, rng.Intn(4), rng.Intn(6), seed, jit))
+				e(fmt.Sprintf("stress bcq users=%d ops=%d c=%d b=%d seed=%d jitter=%d rounds=%d", users, ops, rng.Intn(4), rng.Intn(6), seed, jit, c15Rounds))
+			case "cor":
+				// the target serves fewer requests than the callers make, so it always finishes under them
+				e(fmt.Sprintf("stress cor users=%d ops=%d serve=%d seed=%d jitter=%d rounds=%d", users, ops, rng.Intn(users*ops), seed, jit, c15Rounds))
 			case "pool":
 				qclose := 1
 				if rng.Intn(4) == 0 {
 					qclose = 0
 				}
-				e(fmt.Sprintf("stress pool users=%d ops=%d c=%d b=%d max=%d qclose=%d seed=%d jitter=%d", users, ops, 1+rng.Intn(3), 1+rng.Intn(6), 1+rng.Intn(3), qclose, seed, jit))
+				e(fmt.Sprintf("stress pool users=%d ops=%d c=%d b=%d max=%d qclose=%d seed=%d jitter=%d rounds=%d", users, ops, 1+rng.Intn(3), 1+rng.Intn(6), 1+rng.Intn(3), qclose, seed, jit, c15Rounds/2))
 			}
 			ns++
 		}
